@@ -333,6 +333,10 @@ MUX_PREAMBLE = ('From Coq Require Import List ZArith Bool PrimFloat.\nImport Lis
 def coq_muxcase(ast, trace, obs):
     if 'raised' in obs:
         return 'MCRaised'
+    try:
+        coq_pipe(ast)
+    except ValueError:
+        return 'MCSkip'
     return 'MC %s %s %s' % (coq_pipe(ast), coq_trace(trace), coq_steps(obs['steps']))
 
 
